@@ -11,7 +11,7 @@ def queries():
                             defs=['CAP=%d' % cap, 'H=%d' % h], ll2c=['--alloc-cap', '16'], tiers=('quick', 'thorough') if quick else ('thorough',), timeout=900 if quick else 3600, weight=(cap + 1) * h, unwind=3))
         qs.append(Query('rb_own_cap%d_h3' % cap, SRC, 'h_ringbuffer',
                         'heap-owning element type, max_size=%d, 3 symbolic operations, with CBMC memory-leak / double-free / use-after-free checks' % cap,
-                        defs=['CAP=%d' % cap, 'H=3', 'OWN'], ll2c=['--alloc-cap', '128'], cbmc=['--memory-leak-check'], tiers=('quick', 'thorough') if cap in (2,) else ('thorough',), timeout=1800, weight=20, unwind=3))
+                        defs=['CAP=%d' % cap, 'H=3', 'OWN'], ll2c=['--alloc-cap', '128'], cbmc=['--memory-leak-check'], tiers=('thorough',), timeout=7200, weight=20, unwind=3))   # measured: > 60 min at cap 2 (heap-owning elements + leak check)
     for mode in ('Normal', 'NoInitButDestroy', 'NoInitNoDestroy'):
         for h in (3, 5):
             qs.append(Query('sv_%s_h%d' % (mode, h), SRC, 'h_simplevector',
